@@ -115,6 +115,8 @@ DoCall ==
             /\ \/ \E o \in IterRefOps : StartCall(C(o, <<h>>, <<FALSE>>, NoneArg, <<>>, n, "arr"), <<"ref">>)
                \/ \E a \in 0..(n + 1) : \E o \in {"nth", "nth_back"} :
                     StartCall(C(o, <<h>>, <<FALSE>>, a, <<>>, n, "arr"), <<"ref">>)
+               \/ \E tgt \in {n, n + 1} \cup (IF n > 0 THEN {n - 1} ELSE {}) :
+                    StartCall(C("collect_iter", <<h>>, <<TRUE>>, tgt, <<>>, n, "arr"), <<"own">>)
                \/ \E o \in {"iter_fold", "iter_rfold"} : StartCall(C(o, <<h>>, <<TRUE>>, NoneArg, <<>>, n, "arr"), <<"own">>)
                \/ /\ IdsLeft >= n
                   /\ StartCall(C("iter_clone", <<h>>, <<FALSE>>, NoneArg, <<>>, n, "arr"), <<"ref">>)
